@@ -117,6 +117,9 @@ def main():
       'EMIT_GROUPS': {k: list(v) for k, v in gr.EMIT_GROUPS.items()}, 'HAND_GROUPS': list(gr.HAND_GROUPS),
       'EXCLUDED_ELEMENTS': sorted(gdm.EXCLUDED_ELEMENTS), 'EXCLUDED_CHILDREN': sorted(list(x) for x in gdm.EXCLUDED_CHILDREN),
       'IDENTIFIER_OVERRIDES': sorted(list(x) for x in gdm.IDENTIFIER_OVERRIDES), 'BASEPATHS': dict(gdm.BASEPATHS),
+      'NAMESPACE_OVERRIDES': dict(gdm.NAMESPACE_OVERRIDES), 'CONTEXT_NAMESPACE': [[list(k), v] for k, v in gdm.CONTEXT_NAMESPACE.items()],
+      'REF_NS_MAP': dict(gdm.REF_NS_MAP), 'FILE_NS': dict(gdm.FILE_NS), 'ON_DEMAND': sorted(gdm.ON_DEMAND),
+      'SINGLETONS': sorted(list(x) for x in gdm.SINGLETONS),
       'dims': gens['generate_xsd'].parse_dims(),
       'table_header': gt._HEADER,
       'map_header': gm._HEADER.replace('HEADER_GUARD_PLACEHOLDER', gm._GUARD),
